@@ -167,7 +167,10 @@ def main(tier):
             ln = max(len(base), min(4 * nkw, ln if ln > 4 * (nkw - 1) else 4 * (nkw - 1) + 1))
             return (base + "x" * 20)[:ln]
         nfind = 0
-        allz = ["UTC", "Asia/Tokyo", "Europe/Berlin", "Asia/Kathmandu", "America/New_York", "Europe/London", "Asia/Dubai"]
+        # zone names incl. pairs where one is a proper prefix of the other, the longer one first (the compiler keeps one copy of each name)
+        allz = ["Etc/GMT+10", "Etc/GMT+1", "Etc/GMT", "EST5EDT", "EST", "Asia/Tokyo", "Europe/Berlin", "Asia/Kathmandu", "America/New_York", "NZ-CHAT", "NZ",
+                "UTC"]
+        allz = [zname for zname in allz if os.path.exists("/usr/share/zoneinfo/" + zname)]
         variants = []
         for kws in sorted(layouts):
             # the zone name section is padded to a word boundary: take zone lists of every total length residue
